@@ -57,6 +57,111 @@ def client_ids(obs):
     return []
 
 
+def client_sent(obs):
+    """the requests the client wrote and the calls that wrote them (from a carrier that did not fail)"""
+    for c in PAIR_ORDER:
+        o = obs.get(c)
+        if o and not failed(o) and o["sent"]:
+            return o["sent"], o["sent_calls"]
+    return [], []
+
+
+def has_float(v):
+    if isinstance(v, float):
+        return True
+    if isinstance(v, list):
+        return any(has_float(x) for x in v)
+    if isinstance(v, dict):
+        return any(has_float(x) for x in v.values())
+    return False
+
+
+def to_py(t):
+    """transport form of the driver -> Python value (a float token is read as Python reads it)"""
+    if t is None or t is True or t is False:
+        return t
+    if "i" in t:
+        return int(t["i"])
+    if "f" in t:
+        return float(t["f"])
+    if "s" in t:
+        return "".join(map(chr, t["s"]))
+    if "a" in t:
+        return [to_py(x) for x in t["a"]]
+    return {"".join(map(chr, k)): to_py(v) for k, v in t["o"]}
+
+
+MODEL_TEXT_LIMIT = 30000   # larger conversations: the four real carriers against each other and the script only
+
+
+def features(case, obs=None):
+    """what a case exercises (printed in the evidence distribution as `feat:*`)"""
+    f = set()
+    w = case.get("wire") or {}
+    for k, x in enumerate(case["xs"]):
+        c = x["call"]
+        f.add("call:" + (c["h"] if c["h"] in ("send_message", "send_initialize", "raw") else "typed-helper"))
+        if c["h"] == "raw":
+            v = G.G.idval(c["id"])
+            f.add("id:falsy" if not v else ("id:int" if isinstance(v, int) else "id:str"))
+            f.add("raw-form:" + c.get("form", "request"))
+            if c.get("pause"):
+                f.add("slow-consumer")
+        elif c.get("id") is not None:
+            f.add("id:int" if "i" in c["id"] else "id:str")
+        for key in ("progress", "reuse"):
+            if c.get(key):
+                f.add(key)
+        if "error" in x["reply"]:
+            e = x["reply"]["error"]
+            f.add("error")
+            if not e.get("code"):
+                f.add("error:code-0")
+            if e.get("message") == "":
+                f.add("error:message-empty")
+            if "data" in e:
+                f.add("error:data-" + ("falsy-" if not e["data"] else "") + type(e["data"]).__name__)
+        n = len(x.get("notifs", []))
+        f.add("notifs:0" if n == 0 else ("notifs:1-3" if n <= 3 else ("notifs:>=99" if n >= 99 else "notifs:4-98")))
+        if x.get("after"):
+            f.add("after-reply" + (":dup" if any(a.get("dup") for a in x["after"]) else "") + (":burst" if len(x["after"]) >= 99 else ""))
+        if x.get("echo"):
+            f.add("echo-request")
+        if "D" in x:
+            f.add(f"tiny-timeout:{x['D']}")
+    if len(case["xs"]) > 1:
+        f.add("sequential>1")
+    st = case.get("style") or {}
+    f.add(f"style:{'spaced' if st.get('sp') else 'compact'}/{'ascii' if st.get('ascii') else 'utf8'}")
+    for key in ("order", "extra"):
+        if st.get(key):
+            f.add("style:" + key)
+    f.add("tie:" + case.get("tie", "events"))
+    for key in ("batch", "blank", "eof"):
+        if (w.get("stdio") or {}).get(key):
+            f.add("stdio:" + key)
+    for c in w.get("json") or []:
+        for key in ("batch", "all"):
+            if c.get(key):
+                f.add("json:" + key)
+        if c.get("sess") == "":
+            f.add("session-empty")
+    for b in w.get("httpsse") or []:
+        if b.get("trailing") or any(e.get("before") for e in b.get("evs") or []):
+            f.add("httpsse:noise-events")
+    for key in ("m200", "eof", "untyped"):
+        if (w.get("sse") or {}).get(key):
+            f.add("sse:" + key)
+    if any((w.get("sse") or {}).get("ack") or []):
+        f.add("sse:answer-before-ack")
+    size = len(canon(case["xs"]))
+    if size >= 1 << 20:
+        f.add("size>=1MiB")
+    elif size >= 1 << 16:
+        f.add("size>=64KiB")
+    return f
+
+
 def first_diff(a, b):
     for i, (x, y) in enumerate(zip(a, b)):
         if canon(x) != canon(y):
@@ -79,7 +184,9 @@ class Conversations(Suite):
         names = G.helper_names()
         n = {"quick": 1000, "thorough": 20000, "search": 4000}[budget]
         out = list(G.directed(ctx.sub_rng("c15", "directed"), names))
+        out += G.sequences(ctx.sub_rng("c15", "sequences"), names)
         out += G.cases(ctx.sub_rng("c15", budget), n, names)
+        out += G.limits(ctx.sub_rng("c15", "limits", budget), names, budget)
         return out
 
     def impl(self, case):
@@ -89,11 +196,23 @@ class Conversations(Suite):
     def model_line(self, case, obs=None):
         if obs is None:
             return None
-        ids = client_ids(obs)
-        if len(ids) < len(case["xs"]) or any(o and failed(o) for o in obs.values()):
+        sent, calls = client_sent(obs)
+        if not sent or any(o and failed(o) for o in obs.values()):
             return None
         ref = next(o for o in obs.values() if o)
-        text_mode = int(sha(case), 16) % 2 == 0 and len(ref["texts"]) == len(case["xs"])
+        xs = [case["xs"][ci] for ci in calls]   # the exchanges that were played (one per request that was written)
+        if len(ref["texts"]) != len(xs) or sum(len(t) for ts in ref["texts"] for t in ts) > MODEL_TEXT_LIMIT:
+            return None
+        ids = [r["id"] for r in sent]
+        w = case.get("wire") or {}
+        sw, jw, ew = w.get("stdio") or {}, w.get("json") or [], w.get("sse") or {}
+        after = any(x.get("after") for x in xs)
+        st = case.get("style") or {}
+        # the model renders the conversation itself (`rpcWire`) only for plainly written messages; otherwise
+        # it is given the very texts / bytes / bodies the scripted server wrote
+        text_mode = (int(sha(case), 16) % 2 == 0 or after or bool(st.get("order") or st.get("extra"))
+                     or has_float(xs) or any("$TOK" in canon(x.get("notifs", [])) for x in xs)
+                     or any(x.get("echo") for x in xs))
 
         def noise(n):
             ch = lambda c: {"sp": c["sp"], "before": list(c.get("before") or [])}
@@ -113,24 +232,33 @@ class Conversations(Suite):
             return {"k": "resp", "id": tid(m["id"]), "result": J.of_py(m["result"])}
 
         conv = []
-        for k, x in enumerate(case["xs"]):
+        for k, x in enumerate(xs):
             if isinstance(ids[k], bool) or not isinstance(ids[k], (str, int)):
                 return None
-            ms = H.messages(x, ids[k])
-            conv.append({"notifs": [M(m, k, i) for i, m in enumerate(ms[:-1])], "reply": M(ms[-1], k, len(ms) - 1)})
-        w = case.get("wire") or {}
-        line = {"m": "carrier", "style": case.get("style") or G.STYLES[0], "conv": conv}
-        so = obs.get("stdio") or {}
-        line["stdio"] = {"crlf": (so.get("wire") or {}).get("crlf", []), "cuts": (so.get("wire") or {}).get("cuts", []) if text_mode else [3, 40, 41, 90]}
-        if obs.get("http_json"):
+            b, r, _a = H.messages3(x, sent[k])
+            conv.append({"notifs": [M(m, k, i) for i, m in enumerate(b)], "reply": M(r, k, len(b))})
+        line = {"m": "carrier", "style": {"sp": bool(st.get("sp")), "ascii": bool(st.get("ascii"))}, "conv": conv}
+        so = (obs.get("stdio") or {}).get("wire") or {}
+        if after or sw.get("batch") or sw.get("blank"):
+            line["stdio_raw"] = {"hex": so.get("hex", ""), "cuts": so.get("cuts", [])}
+        line["stdio"] = {"crlf": so.get("crlf", []), "cuts": so.get("cuts", []) if text_mode else [3, 40, 41, 90]}
+        jo = obs.get("http_json")
+        if jo and (after or any(c.get("all") for c in jw)):
+            line["json_raw"] = [{"id": tid(ids[k]), "status": b["status"], "sess": None, "text": J.cps(b["text"])}
+                                for k, b in enumerate(jo.get("bodies") or [])]
+        if jo:
             line["json"] = [{"id": tid(ids[k]), "status": c.get("status", 200), "sess": c.get("sess"), "batch": bool(c.get("batch"))}
-                            for k, c in enumerate((w.get("json") or [])[: len(conv)])]
+                            for k, c in enumerate([(jw[ci] if ci < len(jw) else {}) for ci in calls])]
         else:
             line["json"] = None
+        if after:
+            line["httpsse_raw"] = [{"id": tid(ids[k]), "status": b["status"], "sess": None, "text": J.cps(b["text"])}
+                                   for k, b in enumerate((obs.get("http_sse") or {}).get("bodies") or [])]
         bodies = []
-        for k, c in enumerate((w.get("httpsse") or [])[: len(conv)]):
+        hw = w.get("httpsse") or []
+        for k, c in enumerate([(hw[ci] if ci < len(hw) else {}) for ci in calls]):
             evs = []
-            for e in c.get("evs") or []:
+            for e in (c.get("evs") or [])[: len(conv[k]["notifs"]) + 1]:
                 name = e.get("name")
                 evs.append({"name": "absent" if name is None else name, "nc": e.get("nc") or {"sp": True, "before": []},
                             "dc": e.get("dc") or {"sp": True, "before": []}, "after": list(e.get("after") or []),
@@ -140,8 +268,13 @@ class Conversations(Suite):
                            "trailing": [noise(n) for n in c.get("trailing") or []]})
         line["httpsse"] = bodies
         eo = (obs.get("sse") or {}).get("wire") or {}
-        line["sse"] = {"pre": eo.get("pre", H.DEFAULT_PRE), "crlf": eo.get("crlf", []),
-                       "cuts": eo.get("cuts", []) if text_mode else [7, 60, 61], "acks": eo.get("acks", [])}
+        if after or any(ew.get("m200") or []) or any(ew.get("untyped") or []):
+            # the model's sender / stream schedule (`sseSchedule`) covers exchanges answered with 202 whose reply is
+            # the last stream message of the exchange; the other legacy-SSE cases are judged by the oracle only
+            line["sse"] = None
+        else:
+            line["sse"] = {"pre": eo.get("pre", H.DEFAULT_PRE), "crlf": eo.get("crlf", []),
+                           "cuts": eo.get("cuts", []) if text_mode else [7, 60, 61], "acks": eo.get("acks", [])}
         return line
 
     def model_obs(self, out, case):
@@ -152,9 +285,9 @@ class Conversations(Suite):
             if mid is not None:
                 mid = {"s": J.text_of_cps(mid["s"])} if "s" in mid else {"i": mid["i"]}
             return {"id": mid, "method": None if v["method"] is None else J.text_of_cps(v["method"]),
-                    "params": None if v["params"] is None else J.to_py(v["params"]),
-                    "result": None if v["result"] is None else J.to_py(v["result"]),
-                    "error": None if v["error"] is None else J.to_py(v["error"])}
+                    "params": None if v["params"] is None else to_py(v["params"]),
+                    "result": None if v["result"] is None else to_py(v["result"]),
+                    "error": None if v["error"] is None else to_py(v["error"])}
         key = {"stdio": "stdio", "http_json": "json", "http_sse": "httpsse", "sse": "sse"}
         return {c: (None if out.get(k) is None else [entry(v) for v in out[k]]) for c, k in key.items()} | {"bodies_ok": out.get("bodies_ok")}
 
@@ -165,7 +298,11 @@ class Conversations(Suite):
             o = obs.get(c)
             if o is None:
                 continue
-            if m.get(c) is None or canon(o["transcript"]) != canon(m[c]):
+            if m.get(c) is None:
+                if c == "sse":
+                    continue  # not modelled for this case (see model_line)
+                return f"{c}: no transcript from the model pipeline"
+            if canon(o["transcript"]) != canon(m[c]):
                 return f"{c}: transcript differs from the model pipeline"
         return None
 
@@ -176,7 +313,7 @@ class Conversations(Suite):
             if obs[c].get("harness_error"):
                 return None  # machinery, not an observation (the runner reports divergences separately)
         ids = client_ids(obs)
-        want = H.expected_transcript(case, ids)
+        want = H.expected_transcript(case, *client_sent(obs))
         good = [c for c in present if not failed(obs[c]) and canon(obs[c]["transcript"]) == canon(want)]
 
         def other(c):
@@ -236,9 +373,21 @@ class Conversations(Suite):
 
     # ------------------------------------------------------------------ bookkeeping
     harness_errors = 0
+    feats = None
 
     def kind(self, case, obs):
+        from collections import Counter
+        if self.feats is None:
+            self.feats = Counter()
         present = [c for c in PAIR_ORDER if obs.get(c) is not None]
+        fs = features(case)
+        fs.add(f"carriers:{len(present)}")
+        for o in obs[present[0]]["outcomes"]:
+            fs.add("outcome:" + o["outcome"])
+        if obs[present[0]].get("late"):
+            fs.add("arrives-after-its-call")
+        for f in fs:
+            self.feats[f] += 1
         if any(obs[c].get("harness_error") for c in present):
             self.harness_errors += 1
             return "harness-error"
@@ -263,5 +412,8 @@ def suites():
 
 def extra(ctx, tier):
     """a harness that could not run a case yields no verdict for it: never pass silently"""
+    for f, n in sorted((_SUITE.feats or {}).items()):
+        ctx.dist["feat:" + f] += n   # coverage of branches / kinds, so that gaps are visible
+    _SUITE.feats = None
     if _SUITE.harness_errors:
         raise RuntimeError(f"C15 harness failed on {_SUITE.harness_errors} case(s): no verdict for them")
